@@ -54,6 +54,10 @@ func directedBehaviours() []*behaviour {
 			acc("o", c("Invite", "", "writer", 0, "any")),                           // 7
 			acc("b", c("InviteJoin", "", "", 7, "")),                                // 8: the removed member joins again
 			acc("o", c("ReadKeyChange", "", "", 0, "")),                             // 9
+			// r1 (validating, at 5) gets records 6..9 followed by a correctly signed record on record 9 whose
+			// first content (revoke of invite 7) applies and whose second names nothing
+			{Act: "AddBatchTail", R: "r1", I: 6, J: 9, Kind: "unaccepted", A: "o", Via: "response",
+				Cs: []content{c("InviteRevoke", "", "", 7, ""), c("RequestDecline", "", "", 0, "")}},
 			{Act: "Bootstrap", R: "r2", P: "r1"},
 			acc("o", c("InviteRevoke", "", "", 7, ""), c("ReadKeyChange", "", "", 0, "")), // 10
 			acc("b", c("RequestRemove", "", "", 0, "")),                             // 11
@@ -93,6 +97,10 @@ func directedBehaviours() []*behaviour {
 			acc("o", c("PermChange", "a", "admin", 0, "")),                          // 10
 			acc("a", c("Invite", "", "reader", 0, "any")),                           // 11
 			acc("o", c("InviteChange", "", "writer", 11, "")),                       // 12
+			{Act: "AddBatchTail", R: "r3", I: 1, J: 11, Kind: "unaccepted", A: "o", Via: "headUpdate",
+				Cs: []content{c("InviteRevoke", "", "", 11, ""), c("InviteRevoke", "", "", 0, "")}},
+			{Act: "AddBatchTail", R: "r2", I: 5, J: 8, Kind: "unaccepted", A: "a", Via: "direct",
+				Cs: []content{c("AccountRemove", "b", "", 0, ""), c("RequestDecline", "", "", 0, "")}},
 			{Act: "AddBatch", R: "r3", I: 1, J: 12},
 			{Act: "Tamper", R: "r3", Kind: "unaccepted", A: "a", Cs: []content{c("PermChange", "b", "reader", 0, ""), c("RequestDecline", "", "", 0, "")}},
 			{Act: "Restart", R: "r3"},
